@@ -6,8 +6,6 @@ From Codec Require Import Wire Impl Statements ProofsHeader.
 Open Scope N_scope.
 
 
-Lemma max_ge_2 : 2 <= maxRemainingLength.
-Proof. unfold maxRemainingLength. lia. Qed.
 
 (* ---------- ack ---------- *)
 
